@@ -781,3 +781,37 @@ package proxy
 //@ func (*chatHandler).handleSessionCommand
 //@   props C21
 //@   at-call queueCommandResult as q: assert [unsigned-commands-pass-no-last-seen] streq(arg1, packet.Command) && (unsigned ==> arg3 == nil) && (!unsigned ==> arg3 != nil)
+
+// ---- C23: the merged command tree only shows usable proxy commands ------------------------------------------------------
+// filterNode copies a proxy command node for one player: a node the player may not use yields nothing; a usable node
+// is rebuilt (requirement replaced by "always", since it was just checked) with its redirect target REPLACED by the
+// filtered target - also when that is nothing, so a redirect can never smuggle an unfiltered subtree in - and receives
+// exactly the filtered copies of its children that are not nothing. By induction over the tree (each recursive call
+// satisfies this same contract) every node of the result is one the player passes the requirement for.
+//@ func filterNode
+//@   props C23
+//@   at-call CanUse as can: assert arg0 == src
+//@   at-call CreateBuilder as mk: assert [only-usable-nodes-are-copied] called(can) && res(can) && arg0 == src
+//@   at-call Redirect#3 as target: assert arg0 == src
+//@   at-call filterNode as ft: assert [redirect-target-goes-through-the-filter] called(target) && arg0 == res(target) && arg1 == cmdSrc
+//@   at-call Redirect#2 as setr: assert [redirect-replaced-by-the-filtered-target] called(ft) && arg1 == res(ft)
+//@   at-call Build as bd: assert called(mk)
+//@   ensures [unusable-node-yields-nothing] called(can) && !res(can) ==> isnil(result) && !called(mk)
+//@   ensures [a-redirect-is-always-replaced] called(ft) ==> called(setr)
+//@ func filterNode$2
+//@   props C23
+//@   at-call filterNode as fc: assert [children-go-through-the-filter] arg0 == sourceChild && arg1 == cmdSrc
+//@   at-call AddChild as add: assert [only-filtered-children-are-attached] called(fc) && !isnil(res(fc)) && arg0 == dest && len(arg1) == 1 && arg1[0] == res(fc)
+//@   ensures [dropped-children-stay-dropped] called(fc) && (isnil(res(fc)) ==> !called(add)) && result
+// Merging: the proxy tree is filtered for THIS player; each filtered proxy node replaces a backend node of the same name
+// (removed first) and is added to the backend's root; nothing else of the backend tree is touched here.
+//@ func (*backendPlaySessionHandler).handleAvailableCommands
+//@   props C23
+//@   at-call filterNode as f: assert [filtered-for-this-player] ref(arg1) == b.serverConn.player
+//@   at-call Range as merge: assert called(f) && !isnil(res(f))
+//@ func (*backendPlaySessionHandler).handleAvailableCommands$1
+//@   props C23
+//@   at-call Name#1 as nm: assert arg0 == node
+//@   at-call RemoveChild as rm: assert [same-name-backend-node-is-replaced] !isnil(existingServerChild)
+//@   at-call AddChild as add: assert [proxy-node-added-to-the-backend-root] len(arg1) == 1 && arg1[0] == node
+//@   ensures [every-filtered-proxy-node-is-merged] called(add) && result
